@@ -39,7 +39,7 @@ type Config struct {
 
 func DefaultConfig() *Config {
 	return &Config{MaxSteps: 2_000_000, MaxDecisions: 400, MaxCallDepth: 300, MaxAlloc: 1 << 16,
-		SolverKind: "cvc5-int", SolverTimeoutMs: 5000, PortfolioS: 60, MapOrder: "canonical", TraceOut: os.Stderr,
+		SolverKind: "cvc5-int-oneshot", SolverTimeoutMs: 5000, PortfolioS: 60, MapOrder: "canonical", TraceOut: os.Stderr,
 		PanicsAreViolations: true, MaxViolations: 8}
 }
 
